@@ -8,6 +8,27 @@ WHAT = {"P08-reservation": "a reservation was not requested for the configured a
         "P08-summary": "the summary does not reproduce the amount, trace number, date, time and terminal id the terminal reported"}
 
 
+def refused_then_again():
+    """Two reservations are open; the terminal refuses the release of one - with a plain abort, or with one that names the receipt
+    number of the other - and the caller commits (and cancels) again: every release that carries a token carries that token's receipt."""
+    okp = {"o": "ok", "status": {"amount": [1]}}
+    out = []
+    for r0 in (17, 9998):
+        for code in (184, 180, 5):
+            for named in (None, r0, r0 + 1, 65535):
+                ab = {"o": "abort", "code": code}
+                if named is not None:
+                    ab["abort_receipt"] = named
+                for closing in ("commit", "cancel"):
+                    calls = [{"op": "begin", "token": [65], "amount": []}, {"op": "begin", "token": [66], "amount": []},
+                             {"op": "commit", "token": [66], "amount": [1]}, {"op": "commit", "token": [66], "amount": [1]},
+                             {"op": closing, "token": [65], "amount": [2]}, {"op": "begin", "token": [66], "amount": []},
+                             {"op": "commit", "token": [66], "amount": [3]}]
+                    out.append({"config": {"max": 2}, "term": {"next_receipt": r0}, "calls": calls,
+                                "plan": {"exchanges": [okp, okp, ab], "default": okp}})
+    return out
+
+
 def run(chk):
     wd = vlib.workdir("C08")
     thorough = chk.tier == "thorough"
@@ -15,12 +36,14 @@ def run(chk):
     cl.model_check(chk, 3, big=False)      # small amounts 0..3 inside the history model
     sc = cl.gen_scenarios(chk, "C08", thorough)
     walks = cl.random_walks(chk.seed + 8, 3000 if thorough else 300, 6)
-    out = cl.run_scenarios(binary, sc + walks, wd, "c08")
+    again = refused_then_again()
+    out = cl.run_scenarios(binary, sc + again + walks, wd, "c08")
     outs, ifl, pfl = cl.validate(chk, out, wd, "c08", shard=600)
     cl.report(chk, outs, ifl, pfl, {"P08", "abnormal"}, WHAT)
     chk.cov["traces_validated_against_impl"] = len(outs)
     chk.cov["evaluations"] = len(outs)
     chk.cov["distinct_nontrivial"] = len(sc)
+    chk.cov["refused_release_histories"] = len(again)
     chk.cov["rule"] = ("TLC generates the boundary grid: pre-authorised amounts {0, 1, 9, 10, 2500, 10^6-1, 10^6, 10^11, 10^12-1%s} x final amounts "
                        "{0, pre-1, pre, pre+1, 2^32-1, 2^32, 2^63, u64::MAX, ..} x currencies {752, 826, 978} x receipt numbers 1..9999 x tokens over "
                        "the CP437 alphabet x status-field shapes; begin + commit run against the real client; TLC decodes the requests with the "
